@@ -87,11 +87,44 @@ fn quarantine(addr: usize, layout: Layout) -> bool {
                 Q_ALIGN[i].store(layout.align(), Relaxed);
                 // size >= 1 for every waker block (header is not zero sized)
                 Q_SIZE[i].store(layout.size().max(1), Relaxed);
+                // the crate has released the block: nothing may write into it any more
+                unsafe { std::ptr::write_bytes(addr as *mut u8, POISON, layout.size()) };
             }
             return true;
         }
     }
     false
+}
+
+/// byte written over a waker block when the crate releases it (the memory is kept until the
+/// end of the history)
+pub const POISON: u8 = 0xDD;
+
+/// A write into a released waker block: `(base of the block, offset of the first changed
+/// byte)`.  The byte is poisoned again so that every stray write is reported once.
+pub fn poison_damage() -> Option<(usize, usize)> {
+    let n = Q_LEN.load(Relaxed).min(MAX_Q);
+    for i in 0..n {
+        let size = Q_SIZE[i].load(Relaxed);
+        let base = Q_BASE[i].load(Relaxed);
+        if size == 0 || base == 0 || Q_ALIGN[i].load(Relaxed) == 0 {
+            continue;
+        }
+        let mut off = 0;
+        while off < size {
+            let p = (base + off) as *mut u8;
+            if unsafe { std::ptr::read_volatile(p) } != POISON {
+                let mut k = off;
+                while k < size {
+                    unsafe { std::ptr::write_volatile((base + k) as *mut u8, POISON) };
+                    k += 1;
+                }
+                return Some((base, off));
+            }
+            off += 1;
+        }
+    }
+    None
 }
 
 /// Register the base of a freshly allocated waker block (called from the probe hook).
